@@ -53,6 +53,41 @@ def agree(case, impl, model):
             if v != v or abs(exact(v) - Fraction(n, d)) > scale * Fraction(1, 2 ** 40):
                 return False
         return True
+    if head in ("logspace_t", "geomspace_t", "linspace_t"):
+        head = head[:-2]
+        # integer element types: element i is the double of position i converted to the type (truncation, saturation);
+        # where that double lies within 1e-9 of a whole number both neighbours are accepted
+        ty = t[0].split("@")[1]
+        lo, hi = {"i8": (-128, 127), "i16": (-2 ** 15, 2 ** 15 - 1), "i32": (-2 ** 31, 2 ** 31 - 1), "i64": (-2 ** 63, 2 ** 63 - 1), "u8": (0, 255)}[ty]
+        start, stop, num, ep = int(t[1][1:]), int(t[3][1:]), int(t[5][1:]), t[6] == "z1"
+        base = int(t[7][1:]) if len(t) > 7 else 10
+        pa = vlib.parse_arr(impl)
+        if head == "geomspace" and (start == 0 or stop == 0):
+            return impl.startswith("err(")
+        if pa is None or pa[0] != str(num) or len(pa[1]) != num:
+            return False
+        if num < 2:
+            return True                                    # the property speaks of sequences of two or more points
+        div = (num - 1) if ep else num
+        for i, got in enumerate(pa[1]):
+            frac = (i / div) if div else 0.0
+            try:
+                if head == "logspace":
+                    v = float(base) ** (start + (stop - start) * frac)
+                elif head == "geomspace":
+                    v = abs(start) * (abs(stop) / abs(start)) ** frac * (1 if start > 0 else -1)
+                else:
+                    v = start + (stop - start) * frac
+            except OverflowError:
+                v = float("inf")
+            if head == "geomspace" and (start > 0) != (stop > 0):
+                continue                                   # sign change: not a real geometric sequence, not judged
+            cands = {max(lo, min(hi, int(v)))} if v == v and abs(v) != float("inf") else {hi if v > 0 else lo}
+            if v == v and abs(v) != float("inf") and abs(v - round(v)) <= 1e-9 * max(1.0, abs(v)):
+                cands |= {max(lo, min(hi, round(v))), max(lo, min(hi, round(v) - 1)), max(lo, min(hi, round(v) + 1))} if v != round(v) else {max(lo, min(hi, round(v))), max(lo, min(hi, round(v) - (1 if v > 0 else -1)))}
+            if int(got) not in cands:
+                return False
+        return True
     if head in ("logspace", "geomspace"):
         vals = f64s(impl)
         num, ep = int(t[5][1:]), t[6] == "z1"
@@ -163,6 +198,20 @@ def gen(seed, tier):
             g1, g2 = rng.choice([1, 2, 5, 10, 1000]), rng.choice([1, 3, 8, 100, 4096])
             out.append(f"geomspace z{g1} z1 z{g2} z1 z{num} z{ep}")
     out.append("linspace z0 z1 z1 z1 z0 z1")
+    # integer element types: negative exponents (values below 1 become 0), values beyond the type's range
+    for ty in ("i8", "i16", "i32", "i64", "u8"):
+        for (a, b) in ((-2, 2), (0, 3), (-3, 0), (1, 4), (2, -2), (0, 0), (-1, 5)):
+            if ty == "u8" and (a < 0 or b < 0):
+                continue
+            for num in (1, 2, 3, 5, 8):
+                for ep in (0, 1):
+                    out.append(f"logspace_t@{ty} z{a} z1 z{b} z1 z{num} z{ep} z{rng.choice([2, 7, 10])}")
+        for (a, b) in ((1, 100), (2, 64), (100, 1), (1, 1), (3, 3000), (5, 7)):
+            if max(a, b) > {"i8": 127, "u8": 255}.get(ty, 30000):
+                continue
+            for num in (1, 2, 3, 5, 9):
+                out.append(f"geomspace_t@{ty} z{a} z1 z{b} z1 z{num} z{rng.randint(0, 1)}")
+                out.append(f"linspace_t@{ty} z{a} z1 z{b} z1 z{num} z{rng.randint(0, 1)}")
     for (sn, sd, en, ed) in ((0, 1, 1, 1), (-1, 1, 1, 1), (5, 2, -5, 2), (-3, 1, 10, 1), (0, 1, 7, 8), (-5, 1, 5, 1), (1, 8, 100, 1)):
         for num in range(2, 61):
             out.append(f"linspace z{sn} z{sd} z{en} z{ed} z{num} z1")
